@@ -220,11 +220,11 @@ def genNormalizeVarRaw (np : NpStats) (pixels : Arr) (mode : ModeArg) (err : Boo
 def genNormalizeVar (np : NpStats) (mode : ModeArg) (err : Bool) : Arg Arr → Except Err (Arg Arr) :=
   genNdfeature (fun p => p.shape) (fun pixels => genNormalizeVarRaw np pixels mode err)
 
-def genNoOpRaw {P : Type} (pixels : P) : Except Err P :=
-  .ok (pixels)
+def genNoOpRaw {P : Type} (pixels : P) : Except Err (Fresh P) :=
+  .ok ((Fresh.mk pixels))
 
 def genNoOp {P : Type} (sh : P → List Nat) : Arg P → Except Err (Arg P) :=
-  genNdfeature sh (genNoOpRaw)
+  genNdfeature sh (fun pixels => (genNoOpRaw pixels).map Fresh.val)
 
 def genGradientRaw (isU8 : Bool) (pixels : Px) : Except Err Px :=
   if isU8 then
